@@ -530,11 +530,16 @@ func objectEntry(r *Scanner) (stateFn, error) {
 	// value, so any overrun signals a malformed entry. For delta entries
 	// the declared size is the size of the delta instruction stream, not
 	// the resolved object.
-	mw = &boundedWriter{w: mw, limit: oh.Size}
+	bw := &boundedWriter{w: mw, limit: oh.Size}
 
-	_, err = ioutil.CopyBufferPool(mw, zr)
+	_, err = ioutil.CopyBufferPool(bw, zr)
 	if err != nil {
 		return nil, err
+	}
+	// Fewer bytes than declared is just as malformed: the object ID below
+	// is computed over the declared size.
+	if bw.n != oh.Size {
+		return nil, fmt.Errorf("%w: inflated object is shorter than its declared size", ErrMalformedPackfile)
 	}
 
 	if err := r.Flush(); err != nil {
